@@ -7,12 +7,17 @@ mod engine;
 mod kinds;
 mod model;
 mod pt;
+mod vhist;
+mod vkinds;
+mod vmodel;
 
 mod c01;
 mod c01x;
 mod c02;
 mod c04;
 mod c05x;
+mod c10;
+mod c11;
 mod c13;
 mod c09;
 mod c06;
@@ -95,6 +100,8 @@ fn main() {
         "C04" => c04::run(&cfg),
         "C05" => histprops::c05(&cfg),
         "C09" => c09::run(&cfg),
+        "C10" => c10::run(&cfg),
+        "C11" => c11::run(&cfg),
         "C13" => c13::run(&cfg),
         "C06" => c06::run(&cfg),
         _ => {
